@@ -140,13 +140,13 @@ def _work(st, batch):
 def run(res):
     thorough = res.tier == "thorough"
     bins = core.build([VARIANT])
-    items = fstring_programs(res.seed, 40000 if thorough else 4000)
+    items = fstring_programs(res.seed, 40000 if thorough else 15000)
     for i, lit in enumerate(DIRECTED):
         for pre, post in (("x = ", "\n"), ("é = [", ",\n]\n"), ("def f():\n\treturn ", "\n")):
             items.append(("directed:%d" % i, pre + lit + post))
             if "'''" in lit or '"""' in lit:
                 items.append(("directed-crlf:%d" % i, (pre + lit + post).replace("\n", "\r\n")))
-    for tag, text in tw.corpus_programs(res.seed, 3000 if thorough else 200):
+    for tag, text in tw.corpus_programs(res.seed, 3000 if thorough else 400):
         if re.search(r"""\b[rR]?[fF][rR]?['"]""", text):
             items.append((tag, text))
     parts = core.pmap(_work, tw.batches(items, 40), init=tw.init_state, initargs=(bins,))
